@@ -48,6 +48,7 @@ class Raised(Exception):
 import re as _re_mod
 
 PURE_STDLIB = {"re": _re_mod}
+BUILTIN_EXCEPTIONS = {"Exception", "ValueError", "TypeError", "KeyError", "NotImplementedError", "RuntimeError", "AssertionError", "IndexError", "SyntaxError", "AttributeError"}
 
 
 class _Continue(Exception):
@@ -577,8 +578,12 @@ class Interp:
                 else:
                     args.append(self.eval(a, env, f))
         kwargs = {k.arg: self.eval(k.value, env, f) for k in e.keywords if k.arg is not None}
-        if any(k.arg is None for k in e.keywords):
-            raise Unmodelled(f"**kwargs call {src(e)[:50]}")
+        for k in e.keywords:
+            if k.arg is None:
+                extra_kw = self.eval(k.value, env, f)
+                if not isinstance(extra_kw, dict) or not all(isinstance(x, str) for x in extra_kw):
+                    raise Unmodelled(f"**kwargs call {src(e)[:50]}: the splatted value is not a dict with string keys")
+                kwargs.update(extra_kw)
         # builtins
         if isinstance(fn, ast.Name) and fn.id not in env:
             name = fn.id
@@ -645,6 +650,8 @@ class Interp:
                 return acc
             if name in self.externals:
                 return self.externals[name](*args, **kwargs)
+            if name in BUILTIN_EXCEPTIONS and name not in f.module.assigns and name not in f.module.imports and name not in f.module.classes:
+                return ExcVal(name, None, {"message": args[0] if args else ""})
         if isinstance(fn, ast.Attribute):
             d = src(fn)
             if d in self.externals:
